@@ -25,7 +25,9 @@ def main():
     try:
         mod = importlib.import_module(a.prop.lower())
     except ModuleNotFoundError as e:
-        print(f"INFRA: no check module for {a.prop}: {e}"); return 2
+        if e.name == a.prop.lower():
+            print(f"INFRA: no check module for {a.prop}: {e}"); return 2
+        raise
     chk = mod.Check()
     if a.replay:
         p = a.replay if os.path.isabs(a.replay) else os.path.join(os.path.dirname(HERE), a.replay)
